@@ -38,6 +38,7 @@ from explorerscript.ssb_converting.ssb_special_ops import (
     SsbLabelJump,
     OPS_THAT_END_CONTROL_FLOW,
     OP_DUMMY_END,
+    OP_JUMP,
     OPS_CTX,
 )
 from explorerscript.util import f, _
@@ -275,7 +276,7 @@ def strip_last_label(routine_ops: list[list[SsbOperation]]) -> list[list[SsbOper
                 # Replace the jumps to it with returns
                 op_before_ends_control_flow = False
                 for op_i, op in enumerate(routine):
-                    if isinstance(op, SsbLabelJump) and op.label == label:
+                    if isinstance(op, SsbLabelJump) and op.label == label and op.root.op_code.name == OP_JUMP:
                         # We only have to insert the OP_DUMMY_END, if the previous op didn't end control flow
                         if op_before_ends_control_flow:
                             indices_to_remove.add(op_i)
